@@ -146,3 +146,29 @@ Example c09_example_edge :
   length os = 1025%nat /\ nth 1023 os Blocked = Ok (x_uuid_MaxTimeUnits * 2 ^ 24 + 2 ^ 10 + 1023) /\
   nth 1024 os Blocked = ErrTimeUnitOverflow.
 Proof. vm_compute. repeat split; reflexivity. Qed.
+
+(* ------------------------------------------------------------------------------------------
+   Tie to the source (C09/Source.v): Snowflake.Next itself - every statement in front of the
+   final `return uuid, nil` - is regenerated from snowflake.go by tools/gofunc on every run
+   (Generated/Snowflake.v; the clock functions are external: what their calls return are
+   parameters; the mutex and log statements are skipped) and computes exactly the model's
+   [next]: outcome and state after, for every state and every clock reading.  [decode_next]
+   reads the fragment's result (which return statement was reached / the fields assigned /
+   the id) in the model's vocabulary; [waits] says whether the call enters the wait loop.
+   If Next changes in the source, these obligations are re-checked. *)
+From FV Require Import Generated.Snowflake C09.Source.
+
+Theorem c09_src_next : forall st t rest now rest',
+  - 2 ^ 62 < seq st < 2 ^ 62 -> - 2 ^ 62 < bc st < 2 ^ 62 ->
+  (waits st t = true -> wait t rest = Some (now, rest')) ->
+  let '(o, st', _) := next (t :: rest) st in
+  (o, st') = decode_next st (go_Snowflake_Next_prefix (bc st) (seq st) (lastTU st) (lastID st) (machine st) t now).
+Proof. exact src_next. Qed.
+Print Assumptions c09_src_next.
+
+Theorem c09_src_next_nowait : forall st t rest now,
+  - 2 ^ 62 < seq st < 2 ^ 62 -> - 2 ^ 62 < bc st < 2 ^ 62 -> waits st t = false ->
+  let '(o, st', _) := next (t :: rest) st in
+  (o, st') = decode_next st (go_Snowflake_Next_prefix (bc st) (seq st) (lastTU st) (lastID st) (machine st) t now).
+Proof. exact src_next_nowait. Qed.
+Print Assumptions c09_src_next_nowait.
